@@ -29,7 +29,8 @@ RULE = {'C19': 'sequences of constructors (Stream, plain nodes, loop-requiring n
 
 PLAIN = ['map', 'sliding_window', 'unique', 'union1', 'sink']          # do not need a loop
 LOOPY = ['buffer', 'delay', 'rate_limit', 'timed_window', 'latest', 'partition']   # ensure_io_loop
-SOURCES = ['from_iterable', 'from_periodic', 'from_textfile', 'filenames']
+SOURCES = ['from_iterable', 'from_periodic', 'from_textfile', 'filenames', 'from_kafka_batched']
+SOURCE_CLASSES = SOURCES + ['FromKafkaBatched']
 ACCEPTS_KW = {'stream', 'sliding_window', 'unique', 'union1', 'sink', 'buffer', 'delay', 'rate_limit',
               'timed_window', 'latest', 'partition'} | set(SOURCES)
 
@@ -180,6 +181,14 @@ def run_binding(sc):
                 elif kind == 'filenames':
                     streamz.sources.glob = lambda p: ['/data/a']
                     node = Stream.filenames('/data/*', poll_interval=1, **kw)
+                elif kind == 'from_kafka_batched':
+                    # (two messages wait on the one partition of an in-memory broker: the batch is emitted with a
+                    # reference counter whose callback commits the offset - on whichever loop that counter chose)
+                    from . import fam_kafka
+                    fam_kafka.simple_env(rec, lp)
+                    node = Stream.from_kafka_batched('t', {'bootstrap.servers': 'fake', 'group.id': 'g',
+                                                          'auto.offset.reset': 'earliest'},
+                                                     poll_interval=1, npartitions=1, **kw).upstreams[0]
                 else:
                     raise ValueError(kind)
             except ValueError as e:
@@ -280,7 +289,7 @@ def run_binding(sc):
             tail = ch['nodes'][-1]
             if not type(tail).__name__.startswith('sink'):
                 keep.append(tail.sink(user_fn))
-            if hasattr(root, 'start') and type(root).__name__ in SOURCES:
+            if hasattr(root, 'start') and type(root).__name__ in SOURCE_CLASSES:
                 root.start()
                 await asyncio.sleep(5)
                 root.stop()
